@@ -402,6 +402,9 @@ def build(tier):
     us_h = D("USh", "struct", False, fields=[("a", U32), ("f", flex_vec_u16)], default=True)
     us_n = D("USNest", "struct", False, fields=[("a", U8), ("inner", us_a.t)], default=True)
     us_n2 = D("USNest2", "struct", False, fields=[("a", U16), ("inner", us_n.t)], default=True)
+    # padding in front of the last *sized* field and a tail that is less aligned than the prefix (fold_size!'s terminal arm, LAST_FIELD_OFFSET)
+    us_pad = D("USPad", "struct", False, fields=[("a", U8), ("b", U32), ("c", vec_u8_u8)], default=True)
+    us_pad2 = D("USPad2", "struct", False, fields=[("a", U8), ("b", U64), ("c", U16), ("s", str_u8)], default=True)
 
     # ---- unsized enums
     ue_a = D("UEa", "enum", False, variants=[("A", "unit", [], True), ("B", "tuple", [(None, I32)], False),
